@@ -34,7 +34,7 @@ DRIVER = 'peerinput'
 WORKERS = 4
 
 
-def write_mc(ctx, d, pairwise):
+def write_mc(ctx, d, pairwise, sits=None):
     """MC module + cfg in scratch dir d, proposer tables from the real ValidatorSet, T = a validator that proposes in none
     of the rounds the situations use."""
     tab = tm.proposer_tables(ctx, [1, 1, 1, 1], 3, 3)
@@ -48,7 +48,7 @@ def write_mc(ctx, d, pairwise):
            'StaleT == ' + tm.tla_seq(stale), 'MCPower == [i \\in 1..4 |-> PowerT[i]]',
            'MCLive == [h \\in 1..%d |-> [r \\in 0..3 |-> LiveT[h][r + 1]]]' % len(live),
            'MCStale == [h \\in 1..%d |-> StaleT[h]]' % len(stale),
-           'MCSits == {%s}' % ', '.join('"%s"' % s for s in SITS), '====']
+           'MCSits == {%s}' % ', '.join('"%s"' % s for s in (sits or SITS)), '====']
     with open(os.path.join(d, 'MC_PeerInput.tla'), 'w') as f:
         f.write('\n'.join(mod) + '\n')
     cfg = open(os.path.join(SPEC, 'MC_PeerInput_q.cfg')).read()
@@ -60,35 +60,40 @@ def write_mc(ctx, d, pairwise):
     return T
 
 
-_node_line = re.compile(r'^(-?\d+) \[label="((?:[^"\\]|\\.)*)"')
+def _unesc(t):
+    return t.replace('\\n', '\n').replace('\\"', '"').replace('\\\\', '\\')
 
 
 def read_plan(path):
     """Light reader of TLC's dot dump: every state carries the action that led to it in `act` (no VIEW), so the states ARE
-    the plan.  Returns (setups {sit: {'pre', 'node'}}, pairs [{'sit','m','o','node' (Accept only)}])."""
-    setups, pairs = {}, []
+    the plan.  Returns (setups {sit: {'pre', 'node'}}, pairs [{'sit','m','o','node' (Accept only)}], others)."""
+    setups, pairs, others = {}, [], []
+    sep = '\\n/\\\\ '
     with open(path, encoding='utf8', errors='replace') as f:
         for line in f:
-            if ' -> ' in line[:48]:
+            i = line.find(' [label="')
+            if i < 0 or '->' in line[:i]:
                 continue
-            m = _node_line.match(line)
-            if not m:
-                continue
-            text = m.group(2).replace('\\n', '\n').replace('\\"', '"').replace('\\\\', '\\')
+            j = line.rfind('"')
+            raw = line[i + 9:j]
+            if raw.startswith('/\\\\ '):
+                raw = raw[4:]
             parts = {}
-            for chunk in re.split(r'(?:^|\n)/\\ ', text):
-                if ' = ' in chunk:
-                    k, v = chunk.split(' = ', 1)
-                    parts[k.strip()] = v
-            act = tlaval.parse_value(parts['act'])
+            for chunk in raw.split(sep):
+                k = chunk.find(' = ')
+                if k > 0:
+                    parts[chunk[:k].strip()] = chunk[k + 3:]
+            act = tlaval.parse_value(_unesc(parts['act']))
             if act[0] == 'Setup':
-                setups[act[1]] = {'pre': act[2], 'node': tlaval.parse_value(parts['node'])}
+                setups[act[1]] = {'pre': act[2], 'node': tlaval.parse_value(_unesc(parts['node']))}
             elif act[0] == 'Input':
-                p = {'sit': tlaval.parse_value(parts['sit']), 'm': act[1], 'o': act[2]}
+                p = {'sit': tlaval.parse_value(_unesc(parts['sit'])), 'm': act[1], 'o': act[2]}
                 if act[2] == 'Accept':
-                    p['node'] = tlaval.parse_value(parts['node'])
+                    p['node'] = tlaval.parse_value(_unesc(parts['node']))
                 pairs.append(p)
-    return setups, pairs
+            elif act[0] == 'Other':
+                others.append(act[1:4])
+    return setups, pairs, sorted(others)
 
 
 def label(m):
@@ -122,9 +127,10 @@ def make_traces(T, setups, pairs, batch, wire_every=0):
         acc = [p for p in by_sit[sit] if p['o'] == 'Accept' and not is_huge(p['m'])]
         chunks = [plain[i:i + batch] for i in range(0, len(plain), batch)]
         chunks += [huge[i:i + 6] for i in range(0, len(huge), 6)]
+        nbase = len(chunks)
         for k, a in enumerate(acc):
             # an accepted input closes a batch
-            if k < len(chunks) and not any(is_huge(x['m']) for x in chunks[k]):
+            if k < nbase and not any(is_huge(x['m']) for x in chunks[k]):
                 chunks[k] = chunks[k] + [a]
             else:
                 chunks.append([a])
@@ -151,6 +157,26 @@ def sample_pairs(pairs, rng, per_stratum, frac):
     return out
 
 
+# classes that exposed genuine defects (all repaired, see KNOWN_FINDINGS.jsonl): always part of the quick sample
+SENTINELS = [('Vote', 'ix=neg1'), ('Vote', 'ad=empty'), ('Vote', 'ix=neg64'), ('Vote', 'r=neg1'), ('Vote', 'r=far'), ('Vote', 'h=prev'),
+             ('Vote', 'sg=bad'), ('Proposal', 'pt=huge'), ('Proposal', 'pt=neg1'), ('Proposal', 'pt=zero'), ('Proposal', 'sg=bad'),
+             ('Proposal', 'pp=nil'), ('BlockPart', 'pa=nil'), ('BlockPart', 'pi=neg1'), ('CommitStep', 'ba=nilptr'),
+             ('CommitStep', 'ba=few'), ('CommitStep', 'ba=huge'), ('ProposalPOL', 'ba=few'), ('VoteSetBits', 'ba=huge'),
+             ('VoteSetBits', 'ba=few'), ('HasVote', 'ix=neg64'), ('VoteSetMaj23', 'r=huge')]
+
+
+def sentinel_pairs(pairs, rng):
+    """Every pair of a sentinel class (all base variants, also with the 'full' peer state) in one seeded situation."""
+    sits = sorted({p['sit'] for p in pairs if p['sit'] != 'FastSync'})
+    out = []
+    for t, lab in SENTINELS:
+        sit = rng.choice(sits)
+        if (t, lab) == ('Vote', 'h=prev') and 'NewHeight' in sits:
+            sit = 'NewHeight'      # the only situation with no last commit
+        out += [p for p in pairs if p['sit'] == sit and p['m']['t'] == t and label(p['m']) in (lab, lab + ',ps=full')]
+    return out
+
+
 def base_msg(pairs, sit, t):
     for p in pairs:
         if p['sit'] == sit and p['m']['t'] == t and not p['m']['d']:
@@ -158,14 +184,15 @@ def base_msg(pairs, sit, t):
     return None
 
 
-def extra_traces(ctx, T, setups, pairs, quick):
+def extra_traces(ctx, T, setups, pairs, quick, sits=None):
     """Engine-made steps (no model outcome): baselines, byte mutations, non-block proposals, poisoned gossip."""
     rng = ctx.rng
     out = []
+    SITS = sits or globals()['SITS']
     for sit in SITS:
         out.append({'id': 'baseline-' + sit, 'cfg': {'T': T}, 'steps': [setup_step(sit, setups)]})
     types = ['NewRoundStep', 'CommitStep', 'Proposal', 'ProposalPOL', 'BlockPart', 'Vote', 'HasVote', 'VoteSetMaj23', 'VoteSetBits']
-    msits = rng.sample(SITS[:-1], 2) if quick else SITS
+    msits = rng.sample([x for x in SITS if x != 'FastSync'], 2) if quick else SITS
     for sit in msits:
         for t in (rng.sample(types, 4) if quick else types):
             m = base_msg(pairs, sit, t)
@@ -175,13 +202,13 @@ def extra_traces(ctx, T, setups, pairs, quick):
                 mm = dict(m, ps=ps)
                 out.append({'id': 'mutate-%s-%s-%s' % (sit, t, ps), 'cfg': {'T': T},
                             'steps': [setup_step(sit, setups), {'a': 'Mutate', 'args': [mm, 24 if quick else 0], 'post': {}}]})
-    ssits = ['Propose', 'Round1', 'NewHeight2', 'NewHeight', 'ProposeProp']
-    for sit in (rng.sample(ssits, 2) if quick else ssits):
+    ssits = [x for x in ['Propose', 'Round1', 'NewHeight2', 'NewHeight', 'ProposeProp'] if x in SITS]
+    for sit in (rng.sample(ssits, min(2, len(ssits))) if quick else ssits):
         for sc in (rng.sample(SCENARIOS, 3) if quick else SCENARIOS):
             out.append({'id': 'scenario-%s-%s' % (sit, sc), 'cfg': {'T': T},
                         'steps': [setup_step(sit, setups), {'a': 'Scenario', 'args': [sc], 'post': {}}]})
-    gsits = ['ProposeProp', 'Prevote', 'CommitWait', 'NewHeight2', 'Round1', 'FastSync']
-    for sit in (rng.sample(gsits, 2) if quick else gsits):
+    gsits = [x for x in ['ProposeProp', 'Prevote', 'CommitWait', 'NewHeight2', 'Round1', 'FastSync'] if x in SITS]
+    for sit in (rng.sample(gsits, min(2, len(gsits))) if quick else gsits):
         for po in (rng.sample(POISONS, 5) if quick else POISONS):
             out.append({'id': 'gossip-%s-%s' % (sit, po), 'cfg': {'T': T},
                         'steps': [setup_step(sit, setups), {'a': 'Gossip', 'args': [po, 260 if quick else 450], 'post': {}}]})
@@ -243,7 +270,9 @@ def run(ctx, replay=None):
     quick = ctx.tier == 'quick'
     d = tlc.scratch_copy([tm.SPEC, SPEC], prefix='vpi')
     try:
-        T = write_mc(ctx, d, pairwise=not quick)
+        # quick: five seeded situations + fast sync (every situation is reached over the seeds); thorough: all ten
+        sits = sorted(ctx.rng.sample(SITS[:-1], 5)) + ['FastSync'] if quick else list(SITS)
+        T = write_mc(ctx, d, pairwise=not quick, sits=sits)
         r = engine.tlc_check(ctx, d, 'MC_PeerInput.tla', 'MC_gen.cfg', name='PeerInput/' + ('single' if quick else 'pairwise'),
                              workers=WORKERS, timeout=600 if quick else 2400, dump=True)
         if r.violation:
@@ -251,19 +280,30 @@ def run(ctx, replay=None):
         if not r.scratch or not os.path.exists(os.path.join(r.scratch, 'graph.dot')):
             raise engine.Inconclusive('TLC produced no state graph: %s' % (r.error or r.out[-1500:]))
         t0 = time.time()
-        setups, pairs = read_plan(os.path.join(r.scratch, 'graph.dot'))
+        setups, pairs, others = read_plan(os.path.join(r.scratch, 'graph.dot'))
         ctx.log('plan: %d situations, %d (situation, message class) pairs read in %.1fs' % (len(setups), len(pairs), time.time() - t0))
         tlc.cleanup(r)
     finally:
         shutil.rmtree(d, ignore_errors=True)
-    if set(setups) != set(SITS) or not pairs:
+    if set(setups) != set(sits) or not pairs:
         raise engine.Inconclusive('state graph incomplete: situations %s' % sorted(setups))
     out = {}
     for p in pairs:
         out[p['o']] = out.get(p['o'], 0) + 1
-    chosen = sample_pairs(pairs, ctx.rng, 2, 0.035) if quick else pairs
+    chosen = pairs
+    if quick:
+        chosen = sample_pairs(pairs, ctx.rng, 2, 0.035)
+        have = {id(p) for p in chosen}
+        chosen += [p for p in sentinel_pairs(pairs, ctx.rng) if id(p) not in have]
     traces = make_traces(T, setups, chosen, batch=20, wire_every=7)
-    extras = extra_traces(ctx, T, setups, pairs, quick)
+    extras = extra_traces(ctx, T, setups, pairs, quick, sits)
+    osel = others
+    if quick:
+        osel = []
+        for rc, k in (('bc', 3), ('mempool', 3), ('pex', 3)):
+            l = [o for o in others if o[0] == rc]
+            osel += ctx.rng.sample(l, min(k, len(l)))
+    extras += [{'id': 'other-%s-%s' % (o[0], o[1]), 'cfg': {}, 'steps': [{'a': 'Other', 'args': list(o), 'post': {}}]} for o in osel]
     ctx.log('%d of %d pairs in %d traces + %d engine-made traces' % (len(chosen), len(pairs), len(traces), len(extras)))
 
     # binding self-test: an accepted input declared "Drop" must be reported as a state change; a dropped input
@@ -301,13 +341,14 @@ def run(ctx, replay=None):
     shrink_replays(ctx, all_traces)
     cnt = rep.get('counters', {})
     ctx.cov['traces_validated_against_impl'] = rep['traces']
-    ctx.cov['evaluations'] = cnt.get('inputs', 0) + cnt.get('mutants', 0) + cnt.get('scenario_messages', 0) + cnt.get('gossip_runs', 0)
+    ctx.cov['evaluations'] = cnt.get('inputs', 0) + cnt.get('mutants', 0) + cnt.get('scenario_messages', 0) + cnt.get('gossip_runs', 0) + cnt.get('other_inputs', 0)
     ctx.cov['impl_checks'] = rep['checks']
     ctx.cov['pairs_in_model'] = len(pairs)
     ctx.cov['pairs_replayed'] = cnt.get('inputs', 0)
     ctx.cov['model_outcomes'] = out
     ctx.cov['real_outcomes'] = {k[4:]: v for k, v in cnt.items() if k.startswith('got-')}
     ctx.cov['situations'] = len(setups)
+    ctx.cov['situations_this_run'] = sits
     ctx.cov['message_types'] = len({p['m']['t'] for p in pairs})
     distinct = {(p['sit'], p['m']['t'], label(p['m']), p['m']['ps'], p['m']['ch']) for p in chosen}
     ctx.cov['distinct_nontrivial'] = len({x for x in distinct if x[2] != 'valid'})
@@ -322,6 +363,8 @@ def run(ctx, replay=None):
     ctx.cov['mutant_outcomes'] = {k[7:]: v for k, v in cnt.items() if k.startswith('mutant-')}
     ctx.cov['scenario_messages'] = cnt.get('scenario_messages', 0)
     ctx.cov['gossip_runs'] = cnt.get('gossip_runs', 0)
+    ctx.cov['other_reactor_classes_in_model'] = len(others)
+    ctx.cov['other_reactor_inputs'] = cnt.get('other_inputs', 0)
     ctx.cov['inputs_via_real_connection'] = cnt.get('inputs_via_real_connection', 0)
     ctx.cov['child_process_runs_for_absurd_sizes'] = cnt.get('child_runs', 0)
     ctx.cov['honest_traffic_commit_checks'] = cnt.get('finishes', 0)
